@@ -218,7 +218,9 @@ def from_dataset(
     """
     try:
         items = list(examples.items())
-    except ItemsNotDefined:
+    except (ItemsNotDefined, NotImplementedError):
+        # NotImplementedError: A dataset in the chain has no keys (e.g. a
+        # slice of a ListDataset), hence `.items()` is not available.
         return from_list(list(examples),
                          immutable_warranty=immutable_warranty, name=name)
     else:
